@@ -226,7 +226,16 @@ def main():
         # a race report without a failing case file: wrap the report into a replay file
         rep = open(races[0]).read()
         tmp = os.path.join(_stage, "race.fail.json")
-        json.dump({"property": pid, "sub": "race-report", "case": None, "error": rep[:20000]}, open(tmp, "w"), indent=1)
+        doc = {"property": pid, "sub": "race-report", "case": None, "error": rep[:20000]}
+        j = os.path.join(os.path.dirname(races[0]), "stats.json.journal.json")
+        if os.path.exists(j):
+            try:
+                jd = json.load(open(j))
+                doc["sub"], doc["case"] = jd.get("sub", "race-report"), jd.get("case")
+                doc["error"] = "race detector report while running this program:\n" + rep[:20000]
+            except Exception:
+                pass
+        json.dump(doc, open(tmp, "w"), indent=1)
         violation = save_replay(pid, tmp)
 
     if a.replay:
